@@ -61,9 +61,19 @@ def _catalogue():
     C['true_color'] = (3, 2, lambda v, r, x: ms.true_color(*r) if v == 0 else ms.true_color(*r, nodata=3, c=5.0, th=0.2), True, 'band')
     for nm in ('proximity', 'allocation', 'direction'):
         f = getattr(xrspatial, nm)
-        C[nm] = (1, 6, (lambda f: lambda v, r, x: [f(r[0]), f(r[0], target_values=[2, 3]), f(r[0], max_distance=x['cell'] * 2.5), f(r[0], distance_metric='MANHATTAN'),
-                                                  f(r[0], target_values=[1], max_distance=x['cell'] * 1.5, distance_metric='MANHATTAN'),
-                                                  f(r[0], max_distance=x['diag'])][v])(f), True, 'targets')
+        # 12 variants = targets {default, [2,3]} x metric {EUCLIDEAN, MANHATTAN} x max_distance {unbounded, 2.5 cells, the raster's own extent}:
+        # v = t*6 + m*3 + d. These are exactly the values the per-call compiled closure freezes.
+        def _prox(f):
+            def call(v, r, x):
+                t, m, d = v // 6, (v // 3) % 2, v % 3
+                kw = {}
+                if t: kw['target_values'] = [2, 3]
+                if m: kw['distance_metric'] = 'MANHATTAN'
+                if d == 1: kw['max_distance'] = x['cell'] * 2.5
+                if d == 2: kw['max_distance'] = x['diag']
+                return f(r[0], **kw)
+            return call
+        C[nm] = (1, 12, _prox(f), True, 'targets')
     C['a_star_search'] = (1, 4, lambda v, r, x: [xrspatial.a_star_search(r[0], x['start'], x['goal'], barriers=[0]),
                                                 xrspatial.a_star_search(r[0], x['start'], x['goal'], barriers=[0], connectivity=4),
                                                 xrspatial.a_star_search(r[0], x['start'], x['goal'], barriers=[0, 1], snap_start=True, snap_goal=True),
@@ -127,11 +137,16 @@ def build(spec, seed):
     H, W = int(rng.integers(4, 9)), int(rng.integers(4, 9))
     if kind == 'bigelev':
         H, W = int(rng.integers(130, 171)), int(rng.integers(130, 171))
+    small_extent = nm in ('proximity', 'allocation', 'direction') and v % 3 == 2
+    if small_extent:
+        H, W = int(rng.integers(3, 6)), int(rng.integers(3, 6))          # a small raster whose own extent is the search radius
     if kind == 'zeros' and np.dtype(dt).kind != 'f':
         dt = 'float32'
     if nm == 'viewshed':
         dt = dt if np.dtype(dt).kind == 'f' or dt in ('int32', 'int64') else 'int32'
     cell = float(rng.choice([1.0, 0.5, 30.0]))
+    if small_extent:
+        cell = float(rng.choice([1.0, 0.5]))
     ys = (np.arange(H) * cell)[::-1].copy(); xs = np.arange(W) * cell + 10
     rasters = []
     for i in range(n):
@@ -160,7 +175,7 @@ def build(spec, seed):
                     ch = c2; break
             data = da.from_array(arr, chunks=ch)
         rasters.append(xr.DataArray(data, dims=['y', 'x'], coords={'y': ys, 'x': xs}, attrs={'res': (cell, cell)}, name='r%d' % i))
-    aux = dict(cell=cell, diag=float(np.hypot((H - 1) * cell, (W - 1) * cell)) * (1.0 if rng.random() < 0.5 else 1.25), start=(float(ys[0]), float(xs[0])), goal=(float(ys[-1]), float(xs[-1])), vx=float(xs[W // 2]), vx2=float(xs[1]), vy=float(ys[H // 2]))
+    aux = dict(cell=cell, diag=float(np.hypot((H - 1) * cell, (W - 1) * cell)) * (1.0 if rng.random() < 0.3 else 1.25), start=(float(ys[0]), float(xs[0])), goal=(float(ys[-1]), float(xs[-1])), vx=float(xs[W // 2]), vx2=float(xs[1]), vy=float(ys[H // 2]))
     return (lambda: f(v, rasters, aux)), rasters
 
 
@@ -269,12 +284,12 @@ def check_pairs(rec, idx, rng, tier):
         for s in cands:
             byvar.setdefault(s.split('|')[1], []).append(s)
         va, vb = [str(v) for v in rng.choice(sorted(byvar), size=2, replace=False)]
-        if nm in closure_family and rng.random() < 0.6:
-            # the per-call compiled closure freezes max_distance / target_values / metric: pair a bounded call with an unbounded one
-            bounded = [v for v in ('2', '4', '5') if v in byvar]; unbounded = [v for v in ('0', '1', '3') if v in byvar]
-            va, vb = str(rng.choice(bounded)), str(rng.choice(unbounded))
-            if rng.random() < 0.3:
-                va, vb = vb, va
+        if nm in closure_family and rng.random() < 0.7:
+            # the per-call compiled closure freezes max_distance / target_values / metric: pairs that differ in exactly one of them
+            t, m, d = int(rng.integers(0, 2)), int(rng.integers(0, 2)), int(rng.integers(0, 3))
+            which = int(rng.integers(0, 3))
+            t2, m2, d2 = (1 - t, m, d) if which == 0 else ((t, 1 - m, d) if which == 1 else (t, m, int(rng.choice([x_ for x_ in range(3) if x_ != d]))))
+            va, vb = str(t * 6 + m * 3 + d), str(t2 * 6 + m2 * 3 + d2)
         A = str(rng.choice(byvar[va])); B = str(rng.choice(byvar[vb]))
         nthr = int(rng.choice([1, 4]))
         rec.evaluation(2)
